@@ -2039,22 +2039,31 @@ fn main() {
     // ---- phase 2: false-alarm control. Every unlisted failing (point, event, mode) is re-run
     // three times alone; simplest first, one per failure class first so that a time cap (quick
     // tier) cuts the tail, never the variety.
-    unlisted.sort_by_key(|h| (cases[h.idx].events.len(), point_rank(&cases[h.idx]), cases[h.idx].mode.clone(), h.kind.clone()));
+    // Order: round-robin over failure classes (kind, side) so that a time cap cuts the tail and
+    // never the variety; inside a class, first the crash point where that class failed for the
+    // most (event, acting side) combinations (least timing-dependent), then the earliest point,
+    // single events before pairs.
+    let mut weight: BTreeMap<String, usize> = BTreeMap::new();
+    for h in &unlisted {
+        *weight.entry(format!("{}@{}|{}|{}", h.kind, h.on, cases[h.idx].mode, cases[h.idx].point)).or_default() += 1;
+    }
+    let w = |h: &Hit| weight.get(&format!("{}@{}|{}|{}", h.kind, h.on, cases[h.idx].mode, cases[h.idx].point)).copied().unwrap_or(0);
+    unlisted.sort_by_key(|h| (cases[h.idx].events.len(), std::cmp::Reverse(w(h)), point_rank(&cases[h.idx]), cases[h.idx].mode.clone(), h.kind.clone()));
+    let mut by_class: BTreeMap<String, VecDeque<&Hit>> = BTreeMap::new();
+    for h in &unlisted {
+        by_class.entry(format!("{}@{}", h.kind, h.on)).or_default().push_back(h);
+    }
     let mut order: Vec<&Hit> = vec![];
-    let mut seen_class: Vec<String> = vec![];
-    for level in 0..3 {
-        for h in &unlisted {
-            let class = match level {
-                0 => format!("{}@{}", h.kind, h.on),
-                1 => format!("{}@{}|{}", h.kind, h.on, cases[h.idx].mode),
-                _ => h.sig.clone(),
-            };
-            if !seen_class.contains(&class) {
-                seen_class.push(class);
-                if !order.iter().any(|o| o.sig == h.sig) {
-                    order.push(h);
-                }
+    loop {
+        let mut any = false;
+        for q in by_class.values_mut() {
+            if let Some(h) = q.pop_front() {
+                order.push(h);
+                any = true;
             }
+        }
+        if !any {
+            break;
         }
     }
     let confirm_budget = Duration::from_secs(if thorough { 900 } else { 28 });
